@@ -134,7 +134,7 @@ func main() { os.Exit(runC08()) }
 
 func runC08() int {
 	run := ev.New("C08", ev.ArgTier(), "exploration")
-	run.Rule("scope-only programs built with the idl model (one struct + 10-20 scopes per file): scope names lower/Upper/camel/UpperCamel/snake/Upper_snake/ALLCAPS/ALLCAPS_SNAKE, operation names likewise, prefixes of 0-4 '.'-separated tokens with 0-3 variables in any position, payloads struct/i32/string; each file compiled for go, java, dart, py, py:asyncio, py:tornado once per -delim value; each (scope, op, delim) run with 1 (no variable) or 3-6 tuples of variable values over [A-Za-z0-9_-]{0,12} (classes mixed / one empty / edge; thorough adds all-empty and special characters); plus a fixed hand-written witness file; thorough adds '%' as delimiter and prefix words with %, quotes, backslash, $; one evaluation = one (scope, op, delim, values) tuple compared across all languages and the reference; distinct = scope-name class x prefix shape x delimiter")
+	run.Rule("scope-only programs built with the idl model (one struct + 10-20 scopes per file): scope names lower/Upper/camel/UpperCamel/snake/Upper_snake/ALLCAPS/ALLCAPS_SNAKE, operation names likewise, prefixes of 0-4 '.'-separated tokens with 0-3 variables in any position, payloads struct/i32/string; each file compiled for go, java, dart, py, py:asyncio, py:tornado once per -delim value (the white space after the `prefix` keyword varies per scope: one blank, two blanks, tab, newline, blank-tab-blank, comment); each (scope, op, delim) run with 1 (no variable) or 3-6 tuples of variable values over [A-Za-z0-9_-]{0,12} (classes mixed / one empty / edge; thorough adds all-empty and special characters); plus a fixed hand-written witness file; thorough adds '%' as delimiter and prefix words with %, quotes, backslash, $; one evaluation = one (scope, op, delim, values) tuple compared across all languages and the reference; distinct = scope-name class x prefix shape x delimiter")
 	run.Assume("reference topic = prefix as written in the IDL with {variables} substituted ⊕ delim ⊕ scope name as written ⊕ delim ⊕ operation name, nothing before the scope for an empty prefix. Reading of the documentation: README 'Prefixes' documents <scope>.<operation> and foo.bar.Events.EventCreated for the default delimiter only, and `-delim` is described as 'the delimiter for pub/sub topic tokens'; nothing says that the '.' written between prefix tokens in the IDL is rewritten, and none of the six generators rewrites it, so the reference keeps the prefix verbatim and uses the delimiter only between prefix, scope and operation")
 	run.Assume("Go: emitted publishers/subscribers executed through reflection against recording FPublisherTransport/FSubscriberTransport; constructors found by go/ast in the emitted files, methods by their Publish/Subscribe + operation-name method names")
 	run.Assume("Python: emitted modules executed unmodified in CPython with stub thrift/frugal/tornado modules (py/stubs2/c08stubs.py); py and py:asyncio under python3, py:tornado under python 2.7.18 when available")
@@ -957,7 +957,7 @@ func (c *c08) compare() {
 						values[v] = vals[i]
 					}
 					witness := map[string]interface{}{
-						"idl_scope": scopeText(sp), "delim": u.Delim, "variables": sp.Vars, "values": vals, "values_by_name": values,
+						"idl_scope": scopeText(sp), "prefix_keyword_layout": sp.Layout, "delim": u.Delim, "variables": sp.Vars, "values": vals, "values_by_name": values,
 						"operation": op.Name, "reference": want, "topics": topics, "batch": u.B.Name,
 						"reproduce": fmt.Sprintf("struct Pay { 1: i32 n } + the scope above in x.frugal; frugal -gen <go|java|dart|py|py:asyncio|py:tornado> -delim '%s' x.frugal", u.Delim),
 					}
